@@ -311,7 +311,7 @@ def observe(node, how, via, revoked=()):
 # seeded random plays beyond TLC's bounds, with single edits
 # --------------------------------------------------------------------------
 
-ALPHA = ["a", "b", "1", "'", '"', "\\", ",", "(", ")", " ", "\n", "[", "]", ":", "/", "#", "\t", "{", "}"]
+ALPHA = ["a", "b", "n", "t", "1", "'", '"', "\\", ",", "(", ")", " ", "\n", "[", "]", ":", "/", "#", "\t", "{", "}"]
 WORDS = ["True", "None", "ordereddict", "1", "", "a', 'b", "', ", "')", "('", "hosts", "vars"]
 
 
@@ -383,7 +383,7 @@ def rbase(rng):
             reqs.append("/vars/" + k)
     r = rng.random()
     if r < 0.06:
-        reqs.append(rng.choice(["/tasks", "/name", "/vars/zz", "/hosts/zz", "/vars/c/d", "/become", ""]))
+        reqs.append(rng.choice(["/tasks", "/name", "/vars/zz", "/hosts/zz", "/vars/c/d", "/become", "", "/become/a", "/a/c"]))
     rng.shuffle(reqs)
     vars_ents = [("insights_signature_exclude", ("str", ",".join(reqs)))]
     if rng.random() < 0.95:
